@@ -144,6 +144,16 @@ def run(ctx, R):
              "copy_term can return (bb%s) after %s without passing through unwind_trail: when the copy runs out of memory the forwarding "
              "pointers stay in the source term, so after catch/3 has handled resource_error(memory) the original term is corrupt" % (wit, name), F.where(ct))
     # the phases that mark must themselves leave by `?`/return only (no swallowing): covered by the consumer rule above
+    # ---- the pre-allocated error term sits at the bottom of the heap: no choice point may record a heap mark below
+    # the current top, or popping it truncates the heap over that term and the next exhaustion throws garbage
+    from . import orframe
+    for w in orframe.WRITERS:
+        wf = F.find_impl("Machine", None, w)
+        wb = F.hir(wf)["body"]
+        hs = [orframe.resolve(x["rhs"], wb) for x in walk(wb) if x["k"] == "Assign" and orframe.field_chain(x["lhs"])[-2:] == ["prelude", "h"]]
+        R.ob("C30:choice-point-heap-mark-is-current-top:%s" % w, len(hs) == 1 and hs[0][-2:] == ["heap", "cell_len()"],
+             "%s must record OrFramePrelude.h = heap.cell_len(); found %s. A smaller mark (e.g. 0) makes backtracking to this frame truncate the heap over the "
+             "pre-allocated error(resource_error(memory), []) term" % (w, [".".join(h) for h in hs]), F.where(wf))
     # ---- RF4: resource errors are thrown in one place, from the pre-allocated term ---------------------------------
     tr = F.find_impl("MachineState", None, "throw_resource_error")
     th = F.hir(tr)
